@@ -113,6 +113,21 @@ theorem Checked.roundtrip_struct {H : List PyTy} (c : Checked M E bad H) {s : St
   | none => simp [hcl] at hsc
   | some cl => exact c.of_reading (c.light_of_findCls hcl) ⟨v, k, hr⟩
 
+/-- every type alias of the metamodel as a root type (`converter.structure(j, Alias)`) -/
+theorem Checked.roundtrip_alias {H : List PyTy} (c : Checked M E bad H) {a : Alias} (hc : aliasCovered M E bad H a = true) {m : Nat} {j : Json}
+    (hv : validTyC M m (.ref a.name) j = true) (hw : Wf j) :
+    ∃ A, E.pkg.aliases.find? (·.1 == a.name) = some (a.name, A) ∧ RoundTrips E bad A j := by
+  simp only [aliasCovered] at hc
+  cases hf : E.pkg.aliases.find? (·.1 == a.name) with
+  | none => simp [hf] at hc
+  | some p =>
+    simp only [hf, Bool.and_eq_true] at hc
+    have hn : p.1 = a.name := by
+      have := List.find?_some hf
+      simpa using this
+    refine ⟨p.2, ?_, c.roundtrip_ty hc.1 hc.2 hv hw⟩
+    rw [← hn]
+
 theorem Checked.roundtrip_request {H : List PyTy} (c : Checked M E bad H) {r : Request} (hc : requestCovered M E bad r = true) {j : Json}
     (hv : validRequestC M r j = true) (hw : Wf j) : ∃ e, entryOf E r.method = some e ∧ RoundTrips E bad (.cls e.req) j := by
   obtain ⟨e, he, v, k, hr⟩ := valid_request_rep M E bad c.structs c.int32 c.uint31 r hc j hv hw
